@@ -97,7 +97,12 @@ pub fn run_case(ctx: &mut Ctx, fam: &str, k: u64, r: &mut Rng) {
             da = rand_shape(r, 5, 4);
             db = rand_shape(r, 5, 4);
         }
-        if r.chance(1, 2) {
+        if r.chance(1, 6) {
+            // special values: zeros, infinities, NaN (a single IEEE operation per element still has one right answer)
+            let sp = [0.0, -0.0, f64::INFINITY, f64::NEG_INFINITY, f64::NAN, 1.0, -2.0];
+            va = (0..numel(&da)).map(|_| *r.pick(&sp)).collect();
+            vb = (0..numel(&db)).map(|_| *r.pick(&sp)).collect();
+        } else if r.chance(1, 2) {
             va = distinct_vals(numel(&da), 2);
             vb = distinct_vals(numel(&db), 1001);
         } else {
